@@ -65,6 +65,10 @@ def forced_feature_cases(rng):
     out.append(base(frames=10, width=128, height=96, **{"cfg.film_grain_denoise_strength": 10, "content": "noise"}))
     out.append(base(frames=10, bitdepth=10, width=128, height=96, **{"cfg.film_grain_denoise_strength": 50,
                                                                     "content": "pan"}))
+    # static noisy scene with film grain: later frames inherit the grain parameters of their reference
+    out.append(base(frames=12, width=128, height=96, **{"cfg.film_grain_denoise_strength": 12, "content": "still", "cfg.logical_processors": 4}))
+    out.append(base(frames=12, bitdepth=10, width=128, height=96, **{"cfg.film_grain_denoise_strength": 30, "content": "still", "cfg.logical_processors": 4,
+                                                                    "cfg.hierarchical_levels": 2}))
     out.append(base(frames=33, width=128, height=96, **{"cfg.enable_overlays": 1, "cfg.hierarchical_levels": 4,
                                                         "content": "pan"}))
     out.append(base(frames=12, width=192, height=128, **{"cfg.screen_content_mode": 1, "cfg.intrabc_mode": 1,
